@@ -87,6 +87,13 @@ def field_source(t, xparam):
         inner = t[1]
         if inner[0] == "comp" and inner[2][0] == "slice" and inner[2][1] == xb:
             return ("chunks", inner)
+        if inner[0] == "cont" and len(inner[3]) == 1:
+            # the same chunks collected by an explicit loop:  for i in range(..): lst.append(x[i:i + k])
+            kind, subs, a, _b, _mn = next(iter(inner[3]))
+            init = inner[2]
+            empty = init[0] in ("list", "tuple") and not init[1] or (init[0] == "call" and init[1] == "list" and not init[2])
+            if kind == "append" and not subs and a and a[0][0] == "slice" and a[0][1] == xb and empty and a[0][2] is not None and a[0][2][0] == "rangevar":
+                return ("chunks", ("comp", "ListComp", a[0], (("i", ("call", "range", a[0][2][1], ())),)))
         if inner[0] == "call" and inner[1].endswith("::split_bytes_given_slice_len") and inner[2] and inner[2][0] == xb:
             return ("pieces", inner[2][1])
     if t == ("param", "config"):
@@ -147,6 +154,8 @@ def check(repo):
                 r1.fail(s.structures.rel, ci.name, ci.node.lineno, "serialize/deserialize missing", "%s lacks serialize or deserialize" % ci.name)
                 continue
             fts, ftd = fn_terms(repo, ser), fn_terms(repo, de)
+            if suffix == "Result":
+                _check_result_refusals(r1, ci, de)
             sf = ser_fields(fts, ser)
             attrs = s.ctor_positional(ci)
             slots = None
@@ -203,43 +212,106 @@ def _check_eq(r2, ci, slots):
     r2.require(not missing, eqm, "__eq__ compares every slot", "%s.__eq__ does not compare %s" % (ci.name, missing))
     ic = any(isinstance(c, ast.Call) and dotted(c.func) == "isinstance" for c in ast.walk(eqm.node))
     r2.require(ic, eqm, "__eq__ type check", "%s.__eq__ has no isinstance check" % ci.name)
-    # polarity: with an object of the same class the field comparison must be reached, with a foreign object it must not
-    cfg = cfg_of(eqm.node)
-    cmp_rets = [n.id for n in cfg.nodes if n.kind == "return" and n.stmt.value is not None and any(isinstance(x, ast.Compare) and isinstance(x.ops[0], ast.Eq) and
-                                                                                                  isinstance(x.left, ast.Attribute) for x in ast.walk(n.stmt.value))]
+    # polarity, path by path: a foreign object must yield False without its fields being read; an object of the same
+    # class must be able to compare equal, and only after every slot was compared
+    from ..pathsum import summarize
+    other = eqm.params[1]
 
-    def reach(same_class):
-        def ev(e):
-            if isinstance(e, ast.Call) and dotted(e.func) == "isinstance":
-                return same_class
-            if isinstance(e, ast.UnaryOp) and isinstance(e.op, ast.Not):
-                v = ev(e.operand)
-                return None if v is None else not v
-            if isinstance(e, ast.BoolOp):
-                vals = [ev(v) for v in e.values]
-                if isinstance(e.op, ast.Or):
-                    return True if any(v is True for v in vals) else (False if all(v is False for v in vals) else None)
-                return False if any(v is False for v in vals) else (True if all(v is True for v in vals) else None)
-            return None
-        seen = {cfg.entry}
-        stack = [cfg.entry]
-        while stack:
-            a = stack.pop()
-            for b, lab in cfg.succ[a]:
-                n = cfg.nodes[a]
-                if n.kind == "test" and isinstance(lab, bool):
-                    v = ev(n.ast)
-                    if v is not None and v != lab:
-                        continue
-                if b not in seen:
-                    seen.add(b)
-                    stack.append(b)
-        return seen
-    if cmp_rets and ic:
-        r2.require(any(c in reach(True) for c in cmp_rets), eqm, "__eq__ compares objects of its own class",
+    def peval(t, isinst):
+        if not isinstance(t, tuple) or not t:
+            return t
+        if t[0] == "call" and t[1] == ("fn", "isinstance"):
+            return ("const", isinst)
+        if t[0] == "un" and t[1] == "Not":
+            v = peval(t[2], isinst)
+            return ("const", not v[1]) if v[0] == "const" else ("un", "Not", v)
+        if t[0] == "bool":
+            conj = t[1] == "And"
+            vals = []
+            for x in t[2]:
+                v = peval(x, isinst)
+                if v[0] == "const" and isinstance(v[1], bool):
+                    if v[1] != conj:
+                        return ("const", v[1])   # short circuit: later operands are not evaluated
+                    continue
+                vals.append(v)
+            if not vals:
+                return ("const", conj)
+            return vals[0] if len(vals) == 1 else ("bool", t[1], tuple(vals))
+        return t
+
+    def field_cmps(t):
+        out = set()
+        if t[0] == "bool" and t[1] == "And":
+            for x in t[2]:
+                out |= field_cmps(x)
+        if t[0] == "cmp" and t[1] == ("Eq",):
+            l, r = t[2]
+            if l[0] == "attr" and r[0] == "attr" and l[2] == r[2] and {l[1], r[1]} == {("var", "self"), ("var", other)}:
+                out.add(l[2])
+        return out
+
+    def reads_other(t):
+        from ..straight import mentions as smentions
+        return smentions(t, other)
+    if ic:
+        can_equal = False
+        for p in summarize(eqm):
+            if p.exc is not None:
+                continue
+            known = [t for (k, t) in p.facts if k[0] == "truth" and k[1].startswith("isinstance(")]
+            for isinst in ([known[0]] if known else [True, False]):
+                v = peval(p.ret if p.ret is not None else ("const", None), isinst)
+                if not isinst:
+                    if not (v == ("const", False) or v == ("var", "NotImplemented")):
+                        r2.fail_fn(eqm, cfg_of(eqm.node).nodes[p.nodes[-1]].stmt, "__eq__ rejects foreign objects",
+                                   "%s.__eq__ compares the fields of an object of another class (for a foreign object it yields %s instead of False)" % (ci.name, S_show(v)[:80]))
+                        break
+                    continue
+                eq_facts = {k[1].split(".", 1)[1] for (k, t) in p.facts if k[0] == "==" and t and k[1].split(".")[0] in ("self", other) and
+                            k[2].split(".")[0] in ("self", other) and k[1].split(".", 1)[-1] == k[2].split(".", 1)[-1] and "." in k[1]}
+                if v == ("const", False):
+                    continue
+                covered = eq_facts | field_cmps(v)
+                if v == ("const", True) or field_cmps(v) or v[0] in ("cmp", "bool"):
+                    can_equal = True
+                    miss = [a for a in slots if a not in covered]
+                    if miss:
+                        r2.fail_fn(eqm, cfg_of(eqm.node).nodes[p.nodes[-1]].stmt, "__eq__ compares every slot on every accepting path",
+                                   "%s.__eq__ can answer True without comparing %s" % (ci.name, miss))
+                        break
+        r2.require(can_equal, eqm, "__eq__ compares objects of its own class",
                    "%s.__eq__ never reaches the field comparison for an object of the same class (inverted type test): equal objects compare unequal" % ci.name)
-        r2.require(not any(c in reach(False) for c in cmp_rets), eqm, "__eq__ rejects foreign objects",
-                   "%s.__eq__ compares the fields of an object of another class" % ci.name)
+
+
+def _check_result_refusals(r1, ci, de):
+    """A result travels from the server's search to the client: deserialize may refuse a payload of the wrong container
+    type, but not by a condition on the configuration - the schemes do not restrict stored identifiers to the configured
+    size (it only sizes the dummy entries), so such a condition rejects results that search legitimately produced."""
+    from ..facts import facts_of, mentions
+    F = facts_of(de)
+    cfgp = de.params[2] if len(de.params) > 2 else "config"
+    bad = None
+    for n, name, f in F.raises():
+        for alt in F.alts(n.id) or []:
+            for (k, t) in alt:
+                if mentions(k, cfgp) or mentions(k, cfgp + "__entry"):
+                    if k[0] == "is" and "None" in k[1:]:
+                        continue
+                    if any(("len(" in part or "size" in part) for part in k[1:]):
+                        bad = (n, k, t)
+    if bad is not None:
+        n, k, t = bad
+        r1.fail_fn(de, n.stmt, "result refused by configuration",
+                   "%s.deserialize refuses a result by a configuration-dependent length condition (%s): search results whose identifiers do not have the "
+                   "configured size - which EDBSetup and Search accept - can no longer be read back on the client" % (ci.name, " ".join(map(str, k))))
+    else:
+        r1.ok({"class": ci.name, "check": "deserialize refuses only by payload type"})
+
+
+def S_show(t):
+    from ..straight import show as _s
+    return _s(t)
 
 
 def _check_pickle(r1, ci, de, ftd, call, node, names, is_tuple, header, srcs, desc, xparam):
